@@ -3,6 +3,7 @@ package props
 import (
 	"bytes"
 	"fmt"
+	"io"
 	"strings"
 
 	"github.com/fluhus/biostuff/formats/fastq"
@@ -266,7 +267,7 @@ func runC02(r *core.Run) {
 		var out []marshaller
 		for _, rc := range []fqRec{{"a", "ACGT", "IIII"}, {"", "", ""}, {"longer name", core.S(longSeq(170)), core.S(longSeq(170))}, {"@", "+", "@"}, {"b", core.S(longSeq(33)), core.S(longSeq(33))}, {"c", "AC", "+I"}} {
 			f := &fastq.Fastq{Name: rc.Name.B(), Sequence: rc.Seq.B(), Quals: rc.Qual.B()}
-			out = append(out, marshaller{fmt.Sprintf("{%q, %d bases}", rc.Name, len(rc.Seq)), f.MarshalText, func(w *bytes.Buffer) error { return f.Write(w) }})
+			out = append(out, marshaller{fmt.Sprintf("{%q, %d bases}", rc.Name, len(rc.Seq)), f.MarshalText, func(w *bytes.Buffer) error { return f.Write(w) }, func(w io.Writer) error { return f.Write(w) }})
 		}
 		return out
 	})
